@@ -18,6 +18,7 @@ package main
 import (
 	"fmt"
 	"net"
+	"os"
 	"strings"
 
 	"github.com/hashicorp/consul/agent/netutil"
@@ -163,8 +164,22 @@ func shrink(ops []*Op, sig string) []*Op {
 	return ops
 }
 
+// debugWitnesses (env C07_DEBUG_WITNESSES=file): shrink EVERY finding and append "sig<TAB>story" lines to the
+// file — used when studying whether one signature covers several mechanisms. Off in normal runs.
+var debugFile *os.File
+var debugCount = map[string]int{}
+
 func (h *History) report(f finding) {
 	h.sigs[f.sig] = true
+	if debugFile != nil && debugCount[f.sig] < 40 {
+		debugCount[f.sig]++
+		ops := shrink(append([]*Op(nil), h.Ops...), f.sig)
+		var story []string
+		for _, o := range ops {
+			story = append(story, o.Short())
+		}
+		fmt.Fprintf(debugFile, "%s\t%s\n", f.sig, strings.Join(story, "; "))
+	}
 	ops := append([]*Op(nil), h.Ops...)
 	if !shrunk[f.sig] {
 		shrunk[f.sig] = true
@@ -228,6 +243,10 @@ func randomHistories(run *hx.Run, n, maxOps int) {
 
 func main() {
 	run := hx.Start()
+	if p := os.Getenv("C07_DEBUG_WITNESSES"); p != "" {
+		debugFile, _ = os.Create(p)
+		defer debugFile.Close()
+	}
 	// state.addIPOffset asks netutil for the agent's bind address (IPv4: virtual IPs are 240.0.0.0 + offset)
 	netutil.SetAgentBindAddr(&net.IPAddr{IP: net.ParseIP("10.0.0.1")})
 	run.Rule = "every result line and every full dump (nodes, services with kind/connect/proxy/virtual-IP attributes, checks, coordinates, sessions, kind-service-names, service-virtual-ips, free-virtual-ips, usage, config entries, system metadata, local index rows) of the real state store after every command equals the Lean model's; the catalog invariant, the deregistration cascades and every derived view (usage, kind-service-names, virtual IPs, gateway-services, mesh-topology) recomputed from the registrations and config entries hold on the implementation"
